@@ -1206,9 +1206,8 @@ def run_parent_spec(spec, rec):
             rec.sample({'lane': 'parent', 'synack': synack, 'history': hist,
                         'observed': [list(x[:3]) for x in log]})
     run_parent_map(spec, rec, bpool, deliver, cache, counters)
-    # outside the property as worded (raising callbacks are not quantified
-    # over), recorded as an anomaly only: with the handshake on, an accept
-    # callback that raises leaves the worker without any answer
+    # with the handshake on, a job whose accept callback raises must still be
+    # answered (the code's answer is NACK)
     try:
         cache.clear()
         calls = []
@@ -1218,8 +1217,12 @@ def run_parent_spec(spec, rec):
         r = bpool.ApplyResult(cache, None, boom, send_ack=lambda *a: calls.append(a))
         deliver((ACK, (r._job, None, 1.0, 5000001, 9)))
         if not calls:
-            rec.anomaly('raising_accept_callback_leaves_worker_unanswered',
-                        accepted=r.accepted(), send_ack_calls=calls)
+            # with the handshake on the worker blocks until it gets ACK or NACK:
+            # without any answer the job is neither run nor refused, and the
+            # worker never takes another job
+            rec.violation('raising_accept_callback_leaves_worker_unanswered',
+                          {'lane': 'parent', 'probe': 'raising_accept_callback'},
+                          accepted=r.accepted(), send_ack_calls=calls)
         else:
             rec.count('parent:raising_accept_callback_answered')
     except BaseException as e:            # noqa
